@@ -1,0 +1,13 @@
+//go:build !verif
+// +build !verif
+
+package argmapper
+
+import "github.com/hashicorp/go-argmapper/internal/graph"
+
+// Verification hooks: no-ops unless built with the "verif" tag.
+
+func verifPoint(string, *Func) {}
+
+func verifGraph(string, *graph.Graph, *graph.Graph, graph.Vertex, graph.Vertex, map[interface{}]graph.Vertex) {
+}
